@@ -524,15 +524,25 @@ func gen(c *hxlib.Ctx) {
 	// the empty bloom
 	emit("empty", caseIn{Logs: []logIn{{Addr: hex.EncodeToString(make([]byte, 21))}}, Shape: shapeIn{Leaf: []int{}}, Shape2: shapeIn{Leaf: []int{0}},
 		Queries: []queryIn{{Items: []itemIn{}, Present: true}, {Items: []itemIn{{Pos: 0, V: hx([]byte("E()"))}}}}})
+	// the heavy kinds are spread over the shards
+	nDense, nMedium := c.N(12), c.N(30)
 	for i := 0; i < c.N(500); i++ {
 		in := genCase(r)
 		kind := fmt.Sprintf("logs-%d", len(in.Logs))
 		emit(kind, in)
+		if i%40 == 39 && nDense > 0 {
+			nDense--
+			emit("dense", genDense(r, 40, 60))
+		}
+		if i%16 == 7 && nMedium > 0 {
+			nMedium--
+			emit("medium", genDense(r, 8, 16))
+		}
 	}
-	for i := 0; i < c.N(12); i++ {
+	for ; nDense > 0; nDense-- {
 		emit("dense", genDense(r, 40, 60))
 	}
-	for i := 0; i < c.N(30); i++ {
+	for ; nMedium > 0; nMedium-- {
 		emit("medium", genDense(r, 8, 16))
 	}
 	// canary: a present item observed as absent — the model must disagree
